@@ -468,6 +468,134 @@ func switchTable(fd *ast.FuncDecl) (map[string]string, error) {
 	return out, nil
 }
 
+// storageConstants reads the sizing constants of the storage checks: the factor in ensureStorage's loop
+// condition, the factor and the floor of initMatch's first allocation, and the comparison that guards the
+// check in goTo and in backtrack.
+func storageConstants(s *Src) (ensureFactor, allocFactor, allocMin int64, goToOp, backOp string, err error) {
+	isR := func(e ast.Expr, field string) bool {
+		se, ok := e.(*ast.SelectorExpr)
+		if !ok {
+			return false
+		}
+		id, ok := se.X.(*ast.Ident)
+		return ok && id.Name == "r" && se.Sel.Name == field
+	}
+	timesCount := func(e ast.Expr) (int64, bool) {
+		be, ok := e.(*ast.BinaryExpr)
+		if !ok || be.Op != token.MUL || !isR(be.X, "runtrackcount") {
+			return 0, false
+		}
+		return evalInt(be.Y, nil, 0)
+	}
+	fd, err := s.funcDecl("runner.go", "Runner", "ensureStorage")
+	if err != nil {
+		return
+	}
+	found := 0
+	ast.Inspect(fd.Body, func(n ast.Node) bool {
+		if f, ok := n.(*ast.ForStmt); ok && f.Init == nil && f.Post == nil {
+			if be, ok := f.Cond.(*ast.BinaryExpr); ok && be.Op == token.LSS && isR(be.X, "Runtrackpos") {
+				if k, ok := timesCount(be.Y); ok {
+					ensureFactor = k
+					found++
+					// the body must be exactly: if !r.growTrack() { return ErrBacktrackingStackLimit }
+					okBody := false
+					if len(f.Body.List) == 1 {
+						if is, ok := f.Body.List[0].(*ast.IfStmt); ok && is.Else == nil && is.Init == nil {
+							if ue, ok := is.Cond.(*ast.UnaryExpr); ok && ue.Op == token.NOT {
+								if name, _ := recvCall(ue.X); name == "growTrack" && len(is.Body.List) == 1 {
+									if rs, ok := is.Body.List[0].(*ast.ReturnStmt); ok && len(rs.Results) == 1 {
+										if id, ok := rs.Results[0].(*ast.Ident); ok && id.Name == "ErrBacktrackingStackLimit" {
+											okBody = true
+										}
+									}
+								}
+							}
+						}
+					}
+					if !okBody {
+						found = -100
+					}
+				}
+			}
+		}
+		return true
+	})
+	if found != 1 {
+		err = fmt.Errorf("ensureStorage: expected exactly one loop `for r.Runtrackpos < r.runtrackcount*K { if !r.growTrack() { return ErrBacktrackingStackLimit } }`")
+		return
+	}
+	fd, err = s.funcDecl("runner.go", "Runner", "initMatch")
+	if err != nil {
+		return
+	}
+	gotF, gotM := false, false
+	ast.Inspect(fd.Body, func(n ast.Node) bool {
+		switch x := n.(type) {
+		case *ast.AssignStmt:
+			if len(x.Lhs) == 1 && len(x.Rhs) == 1 {
+				if id, ok := x.Lhs[0].(*ast.Ident); ok && id.Name == "tracksize" && x.Tok == token.DEFINE {
+					if k, ok := timesCount(x.Rhs[0]); ok {
+						allocFactor, gotF = k, true
+					}
+				}
+			}
+		case *ast.IfStmt:
+			if be, ok := x.Cond.(*ast.BinaryExpr); ok && be.Op == token.LSS {
+				if id, ok := be.X.(*ast.Ident); ok && id.Name == "tracksize" && len(x.Body.List) == 1 {
+					if as, ok := x.Body.List[0].(*ast.AssignStmt); ok && len(as.Rhs) == 1 {
+						a, ok1 := evalInt(be.Y, nil, 0)
+						b, ok2 := evalInt(as.Rhs[0], nil, 0)
+						if ok1 && ok2 && a == b {
+							allocMin, gotM = a, true
+						}
+					}
+				}
+			}
+		}
+		return true
+	})
+	if !gotF || !gotM {
+		err = fmt.Errorf("initMatch: `tracksize := r.runtrackcount * K` / `if tracksize < M { tracksize = M }` not found")
+		return
+	}
+	guard := func(fn string) (string, error) {
+		fd, err := s.funcDecl("runner.go", "Runner", fn)
+		if err != nil {
+			return "", err
+		}
+		var ops []string
+		ast.Inspect(fd.Body, func(n ast.Node) bool {
+			if is, ok := n.(*ast.IfStmt); ok {
+				calls := false
+				ast.Inspect(is.Body, func(m ast.Node) bool {
+					if ce, ok := m.(*ast.CallExpr); ok {
+						if name, _ := recvCall(ce); name == "ensureStorage" {
+							calls = true
+						}
+					}
+					return true
+				})
+				if be, ok := is.Cond.(*ast.BinaryExpr); ok && calls {
+					if id, ok := be.X.(*ast.Ident); ok && id.Name == "newpos" && isR(be.Y, "codepos") {
+						ops = append(ops, be.Op.String())
+					}
+				}
+			}
+			return true
+		})
+		if len(ops) != 1 {
+			return "", fmt.Errorf("%s: the guard `if newpos <cmp> r.codepos { … ensureStorage … }` was not found exactly once", fn)
+		}
+		return ops[0], nil
+	}
+	if goToOp, err = guard("goTo"); err != nil {
+		return
+	}
+	backOp, err = guard("backtrack")
+	return
+}
+
 func leanBool(b bool) string {
 	if b {
 		return "true"
@@ -540,6 +668,11 @@ func init() {
 		}
 
 		push, pop, btPops, err := helperSlots(s)
+		if err != nil {
+			return "", err
+		}
+
+		ensF, allocF, allocM, goToOp, backOp, err := storageConstants(s)
 		if err != nil {
 			return "", err
 		}
@@ -644,6 +777,9 @@ func init() {
 		fmt.Fprintf(&b, "def pushHelperSlots : List (String × Nat) := [%s]\n", strings.Join(ps, ", "))
 		fmt.Fprintf(&b, "/-- slots popped by `backtrack()` before it dispatches to the Back/Back2 case -/\ndef backtrackPops : Nat := %d\n\n", btPops)
 
+		fmt.Fprintf(&b, "/-- `ensureStorage`: `for r.Runtrackpos < r.runtrackcount*%d { if !r.growTrack() { return ErrBacktrackingStackLimit } }` -/\ndef ensureFactor : Nat := %d\n", ensF, ensF)
+		fmt.Fprintf(&b, "/-- `initMatch`: `tracksize := r.runtrackcount * %d; if tracksize < %d { tracksize = %d }` -/\ndef allocFactor : Nat := %d\ndef allocMin : Nat := %d\n", allocF, allocM, allocM, allocF, allocM)
+		fmt.Fprintf(&b, "/-- the comparison `newpos <cmp> r.codepos` that guards ensureStorage in goTo and in backtrack -/\ndef goToGuard : String := %q\ndef backtrackGuard : String := %q\n\n", goToOp, backOp)
 		b.WriteString(`/-- fingerprint of one ` + "`case`" + ` of the interpreter switch in executeDefault.
     flag: 0 forward, 1 ` + "`| Back`" + `, 2 ` + "`| Back2`" + `.  maxPush/minPop/maxPop: slots pushed / explicitly popped, max/min over
     the paths through the case body; maxNet = max over paths of pushed − popped.  adv/jump/back/ret:
